@@ -47,8 +47,17 @@ def prefix_ok(full_obs, cut_obs):
     return None
 
 
-def line_history(rng):
+def line_history(rng, prefix=False):
     from . import c03
+    if prefix:
+        # several variables, the vectors first: they get the one-character codes, scalars (and reals/strings) get
+        # two-character codes that start with a vector's code, so that a cut inside a scalar's code names a vector
+        sigs, steps, imp = gen.gen_history(rng, nsigs=rng.randint(4, 6), max_steps=8, time_profile="mixed", widths=[1, 1, 1, 2, 8, 9, 16], kinds="bbbbrs")
+        order = sorted(range(len(sigs)), key=lambda i: 0 if (sigs[i].tpe == "b" and sigs[i].width > 1) else 1)
+        pos = {old: new for new, old in enumerate(order)}
+        sigs = [sigs[i] for i in order]
+        steps = [(t, [(pos[si], v) for si, v in ch]) for t, ch in steps]
+        return sigs, steps, imp, False
     if rng.random() < 0.5:
         sigs, steps, imp = c03.ld_history(rng, 8)
         return sigs, steps, imp, True
@@ -94,12 +103,13 @@ def run(res, rng, tier, model_ok, replay=None):
     else:
         nfiles = 25 if tier == "quick" else 400
         for f in range(nfiles):
-            sigs, steps, imp, ld = line_history(rng)
+            regime = rng.choice(["dense", "dense", "hashed", "prefix"]) if f >= 4 else ["dense", "prefix", "hashed", "prefix"][f]
+            sigs, steps, imp, ld = line_history(rng, prefix=(regime == "prefix"))
             if imp and not steps[0][1]:
                 steps, imp = steps[1:], False
             if not steps:
                 continue
-            idents, kind, idx, nuniq = gen.assign_ids(rng, len(sigs), rng.choice(["dense", "dense", "hashed"]))
+            idents, kind, idx, nuniq = gen.assign_ids(rng, len(sigs), regime)
             hdr = gen.header_text(rng, sigs, idents)
             lines = build_lines(rng, sigs, idents, steps, imp)
             body = b"\n" + b"".join(l for l, _, _ in lines)
@@ -145,6 +155,26 @@ def run(res, rng, tier, model_ok, replay=None):
                 else:
                     # a cut inside a `$comment ... $end` line is not a cut inside a change: the finding class D9 does not apply
                     in_comment = tail.lstrip(b" \t").startswith(b"$comment")
+                    # a cut inside an identifier code can leave the complete code of ANOTHER declared variable: then the
+                    # last line is a complete change of that variable, not a damaged one, and D9 does not apply
+                    toks = tail.split()
+                    names_other = False
+                    tpe_of = {ident: sg for ident, sg in zip(idents, sigs)}
+                    if len(toks) == 1 and toks[0][:1] in b"01xXzZhHuUwWlL-" and toks[0][1:] in tpe_of:
+                        sg = tpe_of[toks[0][1:]]
+                        # 0/1/x/z are extended to any width; another state character on a wider vector is a value the
+                        # loader rejects with a panic in complete files too
+                        names_other = sg.tpe == "b" and (sg.width == 1 or toks[0][:1] in b"01xXzZ")
+                    if len(toks) == 2 and len(toks[0]) > 1 and toks[1] in tpe_of:
+                        sg = tpe_of[toks[1]]
+                        k = toks[0][:1].lower()
+                        names_other = (k == b"b" and sg.tpe == "b" and (len(toks[0]) - 1 == sg.width or
+                                                                        (len(toks[0]) - 1 < sg.width and toks[0][1:2] in b"01xXzZ"))) or \
+                                      (k == b"r" and sg.tpe == "r") or (k == b"s" and sg.tpe == "s")
+                    # (a value of one kind that lands on a variable of another kind - `r1.5` on a bit vector - panics on
+                    # this tree as it does in a complete file: that stays within the finding class D9)
+                    if names_other:
+                        in_comment = True          # same treatment: PANIC is not tolerated
 
                     def pred(obs, full=full, incomplete=incomplete, in_comment=in_comment):
                         o = vcdfam.strip_bl(obs)
